@@ -137,8 +137,8 @@ func (m *Model) PullPositions(ctx context.Context, ops ...resource.ReadOption) <
 
 			positions.Preset, _ = m.presetForValue(positions.States)
 
-			// projection and filtering
-			responseFilter.Filter(positions)
+			// projection and filtering, on a copy: the states are the stored messages
+			positions = responseFilter.FilterClone(positions).(*traits.OpenClosePositions)
 			if eq(last, positions) {
 				continue
 			}
